@@ -241,16 +241,87 @@ Section Sim.
     ip s' = ip s /\ op s' = op s + length /\
     same_below (dm s) (dm s') (op s) /\ frec (vget (dm s')) offset (op s) (op s + length).
 
+  (* how far below lowPrefix the history extends: the external dictionary, if there is one *)
+  Definition hroom : Z := if is_extdict dict then dictSize else 0.
+  Lemma hroom_range : 0 <= hroom <= dictSize.
+  Proof. unfold hroom. destruct (is_extdict dict); lia. Qed.
+  Lemma hroom_ext : 0 < hroom -> is_extdict dict = true /\ hroom = dictSize.
+  Proof. unfold hroom. destruct (is_extdict dict); [split; reflexivity | lia]. Qed.
+  Lemma hroom_p64 : is_prefix64k dict = true -> hroom = 0.
+  Proof. unfold hroom. destruct dict; cbn; intros; try discriminate; reflexivity. Qed.
+
+  Definition is_cont_f (f : bool) (out : dout) (P : dstate -> Prop) : Prop :=
+    match out with Cont f' s' => f' = f /\ P s' | _ => False end.
+  Lemma is_cont_f_false out P : is_cont_f false out P -> is_cont out P.
+  Proof. destruct out as [[|] s'|s'|s']; cbn [is_cont_f is_cont]; intros H; try contradiction; destruct H; [discriminate | assumption]. Qed.
+
+  (* match starting in the external dictionary, not cut by the end of the buffer *)
+  Lemma ext_match_sim infast s offset length :
+    1 <= offset -> op s - offset < lowPrefix -> lowPrefix - dictSize <= op s - offset ->
+    4 <= length -> 0 <= op s -> op s + length <= oend - 5 ->
+    is_cont_f infast (ext_match partial oend lowPrefix rlow dictm dictSize infast s (op s - offset) length)
+              (vmatch_post s offset length).
+  Proof.
+    intros Ho Hlt Hge Hlen Hop Hroom.
+    unfold ext_match. cbv zeta.
+    assert (Eover : (op s + length >? oend - LASTLITERALS) = false) by fin. rewrite Eover. cbn [andb]. cbv beta iota.
+    set (mat := op s - offset) in *.
+    assert (Hdict : forall m' x, x < lowPrefix -> vget m' x = get dictm (dictSize - (lowPrefix - x))).
+    { intros m' x Hx. unfold vget. destruct (x <? lowPrefix) eqn:E; [reflexivity | lia]. }
+    destruct (length <=? lowPrefix - mat) eqn:Ein; cbv beta iota.
+    - (* entirely inside the dictionary *)
+      cbn [is_cont_f]. split; [reflexivity|]. unfold vmatch_post. cbn [ip op dm].
+      split; [reflexivity|]. split; [reflexivity|]. split; [apply blit_same_below|].
+      intros x Hx. rewrite vget_hi by lia. rewrite Hdict by (unfold mat in *; lia).
+      rewrite get_blit. assert (E : (op s <=? x) && (x <? op s + Z.of_nat (Z.to_nat length)) = true) by lia. rewrite E.
+      f_equal. unfold mat. lia.
+    - (* dictionary tail, then the start of the prefix/output *)
+      set (cs := lowPrefix - mat) in *.
+      set (m1 := blit dictm (dictSize - cs) (dm s) (op s) (Z.to_nat cs)).
+      assert (S1 : same_below (dm s) m1 (op s)) by apply blit_same_below.
+      assert (Hoff : op s + cs - lowPrefix = offset) by (unfold cs, mat; lia).
+      assert (Hm2 : exists m2, (if length - cs >? op s + cs - lowPrefix
+                                then copy_fwd m1 (op s + cs) lowPrefix (Z.to_nat (length - cs))
+                                else blit m1 lowPrefix m1 (op s + cs) (Z.to_nat (length - cs))) = m2 /\
+                               same_below m1 m2 (op s + cs) /\ lzrec m2 offset (op s + cs) (op s + length)).
+      { destruct (length - cs >? op s + cs - lowPrefix) eqn:Eov.
+        - destruct (copy_fwd_lz (Z.to_nat (length - cs)) m1 (op s + cs) offset Ho) as [S R].
+          replace (op s + cs - offset) with lowPrefix in S, R by lia.
+          eexists. split; [reflexivity|]. split; [exact S|].
+          eapply lzrec_weaken; [exact R | lia | lia].
+        - destruct (memcpy_lz m1 (op s + cs) offset (Z.to_nat (length - cs))) as [S R]; [lia|].
+          replace (op s + cs - offset) with lowPrefix in S, R by lia. unfold memcpy_k in S, R.
+          eexists. split; [reflexivity|]. split; [exact S|].
+          eapply lzrec_weaken; [exact R | lia | lia]. }
+      destruct Hm2 as (m2 & Em2 & S2 & R2). rewrite Em2.
+      cbn [is_cont_f]. split; [reflexivity|]. unfold vmatch_post. cbn [ip op dm].
+      split; [reflexivity|]. split; [lia|]. split.
+      + eapply same_below_trans; [exact S1 | exact S2 | unfold cs, mat; lia].
+      + intros x Hx. destruct (Z_lt_ge_dec x (op s + cs)) as [Hlo|Hhi].
+        * rewrite vget_hi by lia. rewrite Hdict by (unfold cs, mat in *; lia).
+          rewrite S2 by lia. unfold m1. rewrite get_blit.
+          assert (E : (op s <=? x) && (x <? op s + Z.of_nat (Z.to_nat cs)) = true) by (unfold cs, mat in *; lia). rewrite E.
+          f_equal. unfold cs, mat. lia.
+        * rewrite !vget_hi by lia. apply R2. lia.
+  Qed.
+
   Lemma safe_match_v s offset length :
-    1 <= offset -> lowPrefix <= op s - offset -> 4 <= length ->
+    1 <= offset -> lowPrefix - hroom <= op s - offset -> 4 <= length -> 0 <= op s ->
     (if partial then op s + length <= oend - 12 else op s + length <= oend - 5) ->
     is_cont (safe_match partial dict oend lowPrefix rlow dictm dictSize s offset length)
             (vmatch_post s offset length).
   Proof.
-    intros Ho Hmat Hlen Hroom.
-    eapply is_cont_mono; [apply safe_match_sim; assumption|].
-    intros s' (H1 & H2 & H3 & H4). unfold vmatch_post. repeat split; try assumption.
-    apply lzrec_v; [exact H4 | lia | lia].
+    intros Ho Hmat Hlen Hop Hroom.
+    destruct (Z_lt_ge_dec (op s - offset) lowPrefix) as [Hext|Hin].
+    - (* the match starts in the external dictionary *)
+      destruct hroom_ext as [Hed Hhr]; [lia|].
+      unfold safe_match. cbv zeta.
+      assert (E1 : checkOffset dictSize && (op s - offset + dictSize <? lowPrefix) = false) by lia. rewrite E1. cbv beta iota.
+      assert (E2 : is_extdict dict && (op s - offset <? lowPrefix) = true) by lia. rewrite E2. cbv beta iota.
+      apply is_cont_f_false. apply ext_match_sim; try assumption; try lia. destruct partial; lia.
+    - eapply is_cont_mono; [apply safe_match_sim; try assumption; lia|].
+      intros s' (H1 & H2 & H3 & H4). unfold vmatch_post. repeat split; try assumption.
+      apply lzrec_v; [exact H4 | lia | lia].
   Qed.
 
   (* ---------- _copy_match: optional extra match-length bytes, then the copy ---------- *)
@@ -267,7 +338,7 @@ Section Sim.
     0 <= nib <= 15 ->
     read_len nib r3 = Some (ml, r4) -> src_at srcm (ip s) r3 -> bytes r3 ->
     0 <= ip s -> ip s + Z.of_nat (length r3) <= iend -> (4 <= length r4)%nat ->
-    1 <= offset -> lowPrefix <= op s - offset ->
+    1 <= offset -> lowPrefix - hroom <= op s - offset -> 0 <= op s ->
     (if partial then op s + (ml + 4) <= oend - 12 else op s + (ml + 4) <= oend - 5) ->
     is_cont (copy_match_lbl partial dict srcm iend oend lowPrefix rlow dictm dictSize s offset nib)
             (fun s' => ip s' = ip s + (Z.of_nat (length r3) - Z.of_nat (length r4)) /\ src_at srcm (ip s') r4 /\
@@ -275,7 +346,7 @@ Section Sim.
                        op s' = op s + (ml + 4) /\ same_below (dm s) (dm s') (op s) /\
                        frec (vget (dm s')) offset (op s) (op s + (ml + 4))).
   Proof.
-    intros Hnib Hrl Hs Hb Hip Hie Hr4 Ho Hmat Hroom.
+    intros Hnib Hrl Hs Hb Hip Hie Hr4 Ho Hmat Hop Hroom.
     unfold copy_match_lbl, read_len in *.
     destruct (nib =? 15) eqn:E15.
     - assert (E : (nib =? ML_MASK) = true) by fin. rewrite E. clear E.
@@ -334,7 +405,7 @@ Section Sim.
     0 <= nib <= 15 -> bytes (o1 :: o2 :: r3) ->
     src_at srcm i (o1 :: o2 :: r3) -> 0 <= i -> i + Z.of_nat (length (o1 :: o2 :: r3)) <= iend ->
     read_len nib r3 = Some (ml, r4) -> (4 <= length r4)%nat ->
-    out_at (vget m1) o rout0 -> Z.of_nat (length rout0) <= o - lowPrefix -> 0 <= o ->
+    out_at (vget m1) o rout0 -> Z.of_nat (length rout0) <= o - lowPrefix + hroom -> 0 <= o ->
     copy_match rout0 (Z.to_nat (o1 + 256 * o2)) (Z.to_nat (ml + 4)) = Some rout1 ->
     1 <= o1 + 256 * o2 ->
     (if partial then o + (ml + 4) <= oend - 12 else o + (ml + 4) <= oend - 5) ->
@@ -387,7 +458,7 @@ Section Sim.
     src_at srcm (ip s) (lits ++ o1 :: o2 :: r3) -> 0 <= ip s ->
     ip s + Z.of_nat (length (lits ++ o1 :: o2 :: r3)) <= iend ->
     read_len (tok mod 16) r3 = Some (ml, r4) -> (6 <= length r4)%nat ->
-    out_at (vget (dm s)) (op s) rout -> Z.of_nat (length rout) <= op s - lowPrefix -> 0 <= op s ->
+    out_at (vget (dm s)) (op s) rout -> Z.of_nat (length rout) <= op s - lowPrefix + hroom -> 0 <= op s ->
     copy_match (rev lits ++ rout) (Z.to_nat (o1 + 256 * o2)) (Z.to_nat (ml + 4)) = Some rout1 ->
     1 <= o1 + 256 * o2 ->
     op s + Z.of_nat (length lits) <= oend - 12 ->
@@ -447,7 +518,7 @@ Section Sim.
     ip s + Z.of_nat (length (tok :: r)) <= iend ->
     read_len (tok / 16) r = Some (ll, r1) -> take (Z.to_nat ll) r1 = Some (lits, o1 :: o2 :: r3) ->
     read_len (tok mod 16) r3 = Some (ml, r4) -> (6 <= length r4)%nat ->
-    out_at (vget (dm s)) (op s) rout -> Z.of_nat (length rout) <= op s - lowPrefix -> 0 <= op s ->
+    out_at (vget (dm s)) (op s) rout -> Z.of_nat (length rout) <= op s - lowPrefix + hroom -> 0 <= op s ->
     apply_seq rout (mkSeq lits (o1 + 256 * o2) (ml + 4)) = Some rout1 ->
     op s + ll <= oend - 12 ->
     (if partial then op s + ll + (ml + 4) <= oend - 12 else op s + ll + (ml + 4) <= oend - 5) ->
@@ -503,6 +574,8 @@ Section Sim.
       + (* 18-byte match copy *)
         assert (Hlt15' : tok mod 16 < 15) by fin.
         destruct (Hnoext2 Hlt15') as [-> ->].
+        assert (Hmatge : lowPrefix <= op s + Z.of_nat (length lits) - (o1 + 256 * o2)).
+        { destruct (is_prefix64k dict) eqn:E64; [pose proof (hroom_p64 E64); lia | fin]. }
         cbn [is_cont ip op dm].
         destruct (copy18_lz m1 (op s + Z.of_nat (length lits)) (o1 + 256 * o2)) as [S R]; [lia|].
         set (m2 := copy18 m1 (op s + Z.of_nat (length lits)) (op s + Z.of_nat (length lits) - (o1 + 256 * o2))) in *.
@@ -699,7 +772,7 @@ Section Sim.
     partial = false ->
     apply_seqs rout ss = Some rout' -> end_ok ss last = true ->
     bytes bs -> src_at srcm (ip s) bs -> 0 <= ip s -> ip s + Z.of_nat (length bs) = iend ->
-    out_at (vget (dm s)) (op s) rout -> Z.of_nat (length rout) <= op s - lowPrefix -> 0 <= op s ->
+    out_at (vget (dm s)) (op s) rout -> Z.of_nat (length rout) <= op s - lowPrefix + hroom -> 0 <= op s ->
     op s + total_len ss last <= oend -> (length bs < fuel)%nat ->
     exists s', run partial dict srcm iend oend lowPrefix rlow dictm dictSize fuel false s
                = (op s + total_len ss last, s')
@@ -882,7 +955,7 @@ Section Sim.
     0 <= nib <= 15 ->
     read_len nib r3 = Some (ml, r4) -> src_at srcm (ip s) r3 -> bytes r3 ->
     0 <= ip s -> ip s + Z.of_nat (length r3) <= iend -> (4 <= length r4)%nat ->
-    1 <= offset -> lowPrefix <= op s - offset -> op s <= oend ->
+    1 <= offset -> lowPrefix <= op s - offset -> 0 <= op s -> op s <= oend ->
     is_cont_or_done (copy_match_lbl partial dict srcm iend oend lowPrefix rlow dictm dictSize s offset nib)
       (fun done s' => op s' = op s + Z.min (ml + 4) (oend - op s) /\
                       same_below (dm s) (dm s') (op s) /\
@@ -892,13 +965,13 @@ Section Sim.
                        else op s' = op s + (ml + 4) /\
                             ip s' = ip s + (Z.of_nat (length r3) - Z.of_nat (length r4)) /\ src_at srcm (ip s') r4)).
   Proof.
-    intros Hp Hnib Hrl Hs Hb Hip Hie Hr4 Ho Hmat Hop.
+    intros Hp Hnib Hrl Hs Hb Hip Hie Hr4 Ho Hmat Hop0 Hop.
     assert (Hml : 0 <= ml).
     { unfold read_len in Hrl. destruct (nib =? 15); [apply read_ext_ge in Hrl; [lia | exact Hb] | inversion Hrl; lia]. }
     destruct (Z_le_gt_dec (op s + (ml + 4)) (oend - 12)) as [Hfar|Hnear].
     - (* far: the full-decoding lemma applies *)
       eapply is_cont_cod.
-      + apply (copy_match_lbl_sim s offset nib r3 ml r4); try assumption. rewrite Hp. exact Hfar.
+      + pose proof hroom_range. apply (copy_match_lbl_sim s offset nib r3 ml r4); try assumption; try lia; try (rewrite Hp; exact Hfar).
       + cbn beta. intros s' (H1 & H2 & H3 & H4 & H5 & H6 & H7).
         replace (Z.min (ml + 4) (oend - op s)) with (ml + 4) by lia.
         repeat split; try assumption; lia.
